@@ -123,14 +123,35 @@ SHAPES_Q = [(1, 1), (1, 2), (2, 1), (2, 2), (2, 3), (1, 4), (4, 1), (3, 2)]
 SHAPES_T = [(3, 3), (2, 4), (4, 2), (1, 6), (6, 1)]
 
 
+def _parts(n, **kw):
+    return [dict(kw, part="%d/%d" % (i, n)) for i in range(n)]
+
+
 @harness(P, quick=[dict(nk=a, nth=b, ihmax=h) for (a, b) in ((1, 2), (2, 1), (2, 2), (2, 3)) for h in (1, 2, 3)] + [dict(nk=a, nth=b, ihmax=h) for (a, b) in ((1, 4), (4, 1)) for h in (2, 3)] + [dict(nk=3, nth=2, ihmax=2), dict(nk=1, nth=1, ihmax=2)],
-         thorough=[dict(nk=a, nth=b, ihmax=h) for (a, b) in SHAPES_T for h in (2, 3)] + [dict(nk=3, nth=2, ihmax=3), dict(nk=3, nth=2, ihmax=4), dict(nk=1, nth=4, ihmax=4), dict(nk=4, nth=1, ihmax=4), dict(nk=3, nth=4, ihmax=2)],
+         thorough=[dict(nk=a, nth=b, ihmax=2) for (a, b) in SHAPES_T] + [dict(nk=a, nth=b, ihmax=3) for (a, b) in ((1, 6), (6, 1))] + [dict(nk=3, nth=2, ihmax=3), dict(nk=3, nth=2, ihmax=4), dict(nk=1, nth=4, ihmax=4), dict(nk=4, nth=1, ihmax=4)],
          max_paths=20000, max_paths_thorough=200000, time_budget=420, time_budget_thorough=3300, hard_timeout=800, hard_timeout_thorough=3600, witnesses=3)
 def watershed(env, nk, nth, ihmax):
     """valid watershed map on every path: all bins labelled, one connected basin per regional maximum of the
     discretised field, equivariant under circular shifts of the direction axis; no memory-safety violation."""
+    _watershed(env, nk, nth, ihmax, None)
+
+
+@harness(P, quick=_parts(16, nk=3, nth=3, ihmax=3),
+         thorough=_parts(16, nk=3, nth=3, ihmax=3) + _parts(16, nk=2, nth=4, ihmax=3) + _parts(16, nk=4, nth=2, ihmax=3) + _parts(16, nk=3, nth=4, ihmax=2) + _parts(16, nk=2, nth=4, ihmax=5),
+         max_paths=20000, max_paths_thorough=200000, time_budget=240, time_budget_thorough=1500, hard_timeout=600, hard_timeout_thorough=1800, witnesses=1)
+def watershed_split(env, nk, nth, ihmax, part):
+    """the claims of `watershed` on a larger grid, the path tree cut into n sub-trees (`part="i/n"`, split on the
+    order of fixed pairs of bins) explored by separate worker processes."""
+    _watershed(env, nk, nth, ihmax, part)
+
+
+def _watershed(env, nk, nth, ihmax, part):
     vals, H = _spectrum(env, nk, nth, ihmax)
     rows = [list(r) for r in vals]
+    if part:
+        flat_ = [x for r in rows for x in r]
+        for t in range(int(str(part).split("/")[1]).bit_length() - 1):
+            bool(flat_[2 * t] <= flat_[2 * t + 1])     # the first decisions of every path: deterministic split points
     shifts = list(range(1, nth))
     if env.sym:
         g, f = ir()
